@@ -151,11 +151,17 @@ let () =
         let st = ref { f_files = []; f_names = []; f_d2p = []; f_fb = [] } in
         pushes n rest (fun name d comb evs ->
           let (name, path) = !cur_name_path in
-          let (e, st') = file_push h comb fixed (fuel_of evs) !st name path d evs in
+          (* the model resolves the name itself (filepath.Clean + traversal check); the
+             harness's filepath.Clean of the name is only compared with it *)
+          let clean_note = match resolve_name name with
+            | Some p when name <> [] && p <> path ->
+              Printf.sprintf " CLEAN-MISMATCH(model=%s,filepath=%s)" (hex_of_str p) (hex_of_str path)
+            | _ -> "" in
+          let (e, st') = file_push_name h comb fixed (fuel_of evs) !st name d evs in
           st := st';
           let x = file_exists !st name d in
           let f = show_fetch (file_fetch_all h !st name d) in
-          Printf.sprintf "%s X%d F%s" (res_name e) (if x then 1 else 0) f);
+          Printf.sprintf "%s X%d F%s%s" (res_name e) (if x then 1 else 0) f clean_note);
         Buffer.add_string buf ("B=" ^ listing (List.map (fun (nm, c) ->
           Printf.sprintf "%s/%s" (hex_of_str nm) (digest_str c)) !st.f_files));
         Buffer.add_string buf (sweep (fun name d ->
